@@ -579,6 +579,26 @@ class AxiIcHarness(Harness):
         # error output of the time-out module (feeds the SoC's bus error counter): one pulse per timed-out request.  It is
         # the OR of the write and the read direction, so the monitor keeps the set of possible (write owes a synthesised
         # response, read owes one) pairs: bit pw + 2*pr of eset.
+        ext = eset >> 4
+        eset &= 15
+        if self.error is not None and self.has_timeout and self.kind == "timeout":
+            # bare time-out module (1 master, 1 slave, combinational pass-through): the cycle in which the responder takes over a
+            # direction is visible from outside - the master's address / data valid is accepted although the slave holds the
+            # matching ready low - and the error pulse of that expiry belongs in the cycle before, exactly.  This pins every pulse
+            # to its direction and cycle (the set construction below cannot tell two expiries in adjacent cycles from two in one).
+            resp_w, resp_r, err_prev = ext & 1, (ext >> 1) & 1, (ext >> 2) & 1
+            P0, S0 = self.M[0], self.S[0]
+            abs_w = (hs(P0, "aw") and not v[S0["aw"]["ready"]]) or (hs(P0, "w") and not v[S0["w"]["ready"]])
+            abs_r = hs(P0, "ar") and not v[S0["ar"]["ready"]]
+            start_w, start_r = bool(abs_w and not resp_w), bool(abs_r and not resp_r)
+            if (start_w or start_r) and not err_prev:
+                return env, ("timeout.error_pulse", f"the time-out responder took over a {'write' if start_w else 'read'} request in this cycle "
+                             "but error was not pulsed in the cycle before (one pulse per expiry, in the expiry cycle)"), 0
+            if err_prev and not (start_w or start_r):
+                return env, ("timeout.error_pulse", "error was pulsed in the previous cycle but the responder takes over no request now"), 0
+            resp_w = int((resp_w or start_w) and not to_b)
+            resp_r = int((resp_r or start_r) and not to_r)
+            ext = resp_w | (resp_r << 1) | (int(bool(v[self.error])) << 2)
         if self.error is not None and self.has_timeout:
             if v[self.error]:
                 nxt = 0
@@ -608,7 +628,7 @@ class AxiIcHarness(Harness):
                 if not eset & 1:
                     return env, ("timeout.error_pulse", "error pulsed although no request timed out (nothing outstanding any more, no time-out response seen)"), 0
                 eset = 1
-        return (tuple(wm2), tuple(rm2), tuple(ws2), tuple(rs2), stalls2, tuple(ages2), tuple(sst2), eset), None, flags
+        return (tuple(wm2), tuple(rm2), tuple(ws2), tuple(rs2), stalls2, tuple(ages2), tuple(sst2), eset | (ext << 4)), None, flags
 
     def cover_report(self):
         return dict(self.cov)
